@@ -46,6 +46,13 @@ HeadReachable(s) ==
 (* name's prefix is the property.                                       *)
 (* ------------------------------------------------------------------ *)
 
+\* For a coded (gzip/deflate) body the decoder is opaque; what matters is whether the compressed
+\* stream itself arrived whole and undamaged (codedEnd = wire offset just after its last octet).
+CodedCut(s) == \/ s.faultKind = "bad"
+               \/ s.wireLen < s.codedEnd
+               \/ s.faultKind = "err" /\ s.faultAt < s.codedEnd
+Incomplete(s) == IF s.coding = "identity" THEN Defective(s) ELSE CodedCut(s)
+
 \* ---- return of send() -------------------------------------------------
 G04_sendOkOnValidHead(s, st, e) ==
   (HeadReachable(s) /\ ~s.reject /\ s.faultKind # "errt") => (e.res = "ok" /\ e.status = s.status)
@@ -63,10 +70,12 @@ G01_prefix(s, st, e) ==
 \* end of the frame was really seen (C01 for intact responses, C02 otherwise)
 G01_eofOnlyWhenComplete(s, st, e) ==
   (e.res = "ok" /\ e.n = 0 /\ st.buf > 0 /\ ~st.errSeen) =>
-      (st.delivered = s.payloadLen /\ FrameDone(s, st.arrived, st.closed))
+      IF s.coding = "identity"
+      THEN st.delivered = s.payloadLen /\ FrameDone(s, st.arrived, st.closed)
+      ELSE st.delivered = s.payloadLen /\ ~CodedCut(s)
 \* an intact response is read without errors
 G01_noSpuriousError(s, st, e) ==
-  (s.faultKind = "none" /\ ~st.errSeen) => e.res # "err"
+  (s.faultKind = "none" /\ ~st.errSeen) => e.res = "ok"
 \* HEAD / 1xx / 204 / 304: the body is empty whatever the header fields say
 G03_emptyBody(s, st, e) ==
   (s.framing = "none" /\ ~st.errSeen) => (e.res = "ok" /\ e.n = 0)
@@ -79,15 +88,17 @@ G01_helperWhole(s, st, e) ==
      /\ IF st.op \in BytesOps THEN e.n = s.payloadLen - st.delivered /\ e.lcp = e.n
         ELSE st.delivered = 0 => (e.n = s.textLen /\ e.lcp = e.n)
 G02_helperErrOnDefect(s, st, e) ==
-  (Defective(s) /\ ~st.errSeen) => e.res # "ok"
+  (Incomplete(s) /\ ~st.errSeen) => e.res # "ok"
 G02_helperPrefix(s, st, e) ==
   (e.res = "ok" /\ st.op \in BytesOps) => (e.lcp = e.n /\ st.delivered + e.n <= s.payloadLen)
 G05_helperReturns(s, st, e) == e.res # "panic"
 
 \* ---- the client asks the transport for octets that have not arrived -------
 \* send() may only wait while the head is incomplete
+\* (the property quantifies over uncompressed bodies: a decoder may look at the first octets of
+\* a coded body before send() returns)
 G19_sendNotBlockedAfterHead(s, st) ==
-  st.op = "send" => st.arrived < s.headEnd
+  (st.op = "send" /\ s.g19) => st.arrived < s.headEnd
 \* a read that could be satisfied from what has arrived must not wait
 G19_readNotBlockedWhenDeliverable(s, st) ==
   (st.op = "read" /\ st.buf >= 1 /\ s.g19 /\ ~st.errSeen) => Deliverable(s, st.arrived) <= st.delivered
@@ -135,7 +146,8 @@ GuardProp(g) ==
     [] g \in {"G01_prefix", "G01_eofOnlyWhenComplete", "G01_noSpuriousError", "G01_helperWhole"} -> "C01"
     [] g \in {"G19_sendNotBlockedAfterHead", "G19_readNotBlockedWhenDeliverable", "G19_noWaitBeyondFrame"} -> "C19"
 PropertyOf(g, sc) ==
-  IF GuardProp(g) = "C01" /\ sc.faultKind # "none" THEN "C02" ELSE GuardProp(g)
+  IF GuardProp(g) \in {"C01", "C02"} /\ sc.coding # "identity" THEN "C06"
+  ELSE IF GuardProp(g) = "C01" /\ sc.faultKind # "none" THEN "C02" ELSE GuardProp(g)
 
 RetViolations(s, st, e)  == {g \in GuardsOfOp(st.op) : ~RetGuard(g, s, st, e)}
 WantViolations(s, st)    == {g \in WantGuards : ~WantGuard(g, s, st)}
